@@ -442,9 +442,10 @@ Lemma expand_root_exp : forall fs fuel root ns o lg,
   expand_root fs fuel root = ROk (ns, o, lg) -> Exp fs root [] ns o.
 Proof. intros fs fuel root ns o lg. exact (expand_exp fs fuel root [] [] ns o lg). Qed.
 
-Lemma std_lookup_refuted : exists (std : list (text * unit)) disk name,
-  is_std_path name = true /\ assoc name std = None /\ real_lookup std disk name <> None.
-Proof. exists [], (fun _ => Some tt), std_prefix. repeat split. discriminate. Qed.
+(* `<std>/` names only ever name the embedded library: the disk is never consulted for them *)
+Lemma std_lookup_embedded_only : forall (A : Type) (std : list (text * A)) disk name,
+  is_std_path name = true -> real_lookup std disk name = assoc name std.
+Proof. intros. unfold real_lookup. rewrite H. destruct (assoc name std); reflexivity. Qed.
 
 (* example file system for the non-vacuity examples *)
 Open Scope N_scope.
@@ -467,5 +468,5 @@ Qed.
 (* the real file server hands the inclusion functions and the parser the content on disk unchanged for every
    name that is not in the embedded table (no text-layer treatment at the byte layer) *)
 Lemma real_lookup_verbatim : forall (A : Type) (std : list (text * A)) disk name,
-  assoc name std = None -> real_lookup std disk name = disk name.
-Proof. intros. unfold real_lookup. rewrite H. reflexivity. Qed.
+  is_std_path name = false -> assoc name std = None -> real_lookup std disk name = disk name.
+Proof. intros. unfold real_lookup. rewrite H, H0. reflexivity. Qed.
